@@ -224,6 +224,8 @@ func (fv *funcVerifier) globalLval(st *State, o *types.Var) lval {
 		if !fv.c.Has(name) {
 			t := fv.c.Const(name, smt.Int)
 			fv.c.Axiom("pos_"+name, smt.Gt(t, smt.IntLit(0)), name)
+			fv.c.DeclareFun("err_is", []string{smt.Int}, smt.Int)
+			fv.c.Axiom("root_"+name, smt.Eq(smt.App(smt.Int, "err_is", t), t), name)
 			fv.sentinels = append(fv.sentinels, name)
 		}
 		t := smt.Term{S: name, Sort: smt.Int}
@@ -236,6 +238,7 @@ func (fv *funcVerifier) globalLval(st *State, o *types.Var) lval {
 	fv.regHeap(key, smt.Arr(smt.Int, so))
 	return lval{typ: o.Type(),
 		load: func() smt.Term {
+			fv.instFrames(key, smt.IntLit(0))
 			v := fv.c.Let("g_"+o.Name(), smt.Select(fv.heapGet(st, key), smt.IntLit(0)))
 			fv.assume(st, fv.so.valid(v, o.Type(), st.frontier))
 			return v
@@ -256,6 +259,7 @@ func (fv *funcVerifier) fieldLval(st *State, ref smt.Term, structType types.Type
 			if fv.volField[f.name] {
 				return fv.fresh(st, "volf_"+f.name, f.typ)
 			}
+			fv.instFrames(key, ref)
 			v := fv.c.Let("f_"+f.name, smt.Select(fv.heapGet(st, key), ref))
 			fv.assume(st, fv.so.valid(v, f.typ, st.frontier))
 			return v
@@ -300,6 +304,7 @@ func (fv *funcVerifier) derefLval(st *State, ref smt.Term, t types.Type) lval {
 	fv.regHeap(key, smt.Arr(smt.Int, so))
 	return lval{typ: t,
 		load: func() smt.Term {
+			fv.instFrames(key, ref)
 			v := fv.c.Let("deref", smt.Select(fv.heapGet(st, key), ref))
 			fv.assume(st, fv.so.valid(v, t, st.frontier))
 			return v
@@ -323,6 +328,7 @@ func (fv *funcVerifier) sliceElemLval(st *State, s smt.Term, idx smt.Term, elem 
 	pos := smt.Add(slOff(s), idx)
 	return lval{typ: elem,
 		load: func() smt.Term {
+			fv.instFrames(key, arr)
 			v := fv.c.Let("el", smt.Select(smt.Select(fv.heapGet(st, key), arr), pos))
 			fv.assume(st, fv.so.valid(v, elem, st.frontier))
 			return v
@@ -567,6 +573,9 @@ func (fv *funcVerifier) mapKeys(mt *types.Map) (dom, val, ln string) {
 // mapLookup returns (value, present).
 func (fv *funcVerifier) mapLookup(st *State, m, k smt.Term, mt *types.Map) (smt.Term, smt.Term) {
 	dom, val, ln := fv.mapKeys(mt)
+	fv.instFrames(dom, m)
+	fv.instFrames(val, m)
+	fv.instFrames(ln, m)
 	present := fv.c.Let("present", smt.And(smt.Ne(m, smt.IntLit(0)), smt.Select(smt.Select(fv.heapGet(st, dom), m), k)))
 	raw := smt.Select(smt.Select(fv.heapGet(st, val), m), k)
 	v := fv.c.Let("mv", smt.Ite(present, raw, fv.so.zero(mt.Elem())))
@@ -577,6 +586,7 @@ func (fv *funcVerifier) mapLookup(st *State, m, k smt.Term, mt *types.Map) (smt.
 
 func (fv *funcVerifier) mapLen(st *State, m smt.Term, mt *types.Map) smt.Term {
 	_, _, ln := fv.mapKeys(mt)
+	fv.instFrames(ln, m)
 	l := fv.c.Let("maplen", smt.Ite(smt.Eq(m, smt.IntLit(0)), smt.IntLit(0), smt.Select(fv.heapGet(st, ln), m)))
 	fv.assume(st, smt.And(smt.Ge(l, smt.IntLit(0)), smt.Le(l, smt.IntLit(maxLen))))
 	return l
